@@ -707,6 +707,8 @@ func c03(c *Ctx) (*report.Result, error) {
 	res.Assumptions = []string{"one sendAck goroutine per receiver incarnation writes lastSentMin"}
 	res.RuleDoc["O3.8"] = "no swallowed error in the files the mechanism lives in: no function returns a nil error on a path on which an error obtained from a call is known to be non-nil (io.EOF from a stream Recv, the normal end of a receive loop, is the one accepted idiom)"
 	checkNoSwallowedErrors(c, res, "O3.8", []string{"proxy/proxy_streams.go"})
+	res.RuleDoc["O3.9"] = "relay loops pass every message on: in every loop that takes messages from a stream or channel and forwards them, no path from the take to the next take avoids every stream Send / channel send / Deliver*ToShardOwner (a forwarding loop that runs zero times, the wrong-kind edges of a type assertion and a return that ends the stream are not bypasses; the ack aggregator sendAck is the reviewed exception)"
+	checkRelayLoops(c, res, "O3.9", []string{"proxy/proxy_streams.go", "proxy/intra_proxy_router.go"}, 5)
 	return res, nil
 }
 
